@@ -33,6 +33,7 @@ Device *g_dev = &g_naive;
 
 std::vector<std::unique_ptr<Parameter>> g_params;
 std::vector<std::unique_ptr<Optimizer>> g_opts;
+std::vector<std::unique_ptr<Model>> g_models;   // persistent models (ops model / madd / msub / oaddm)
 struct Ckpt { std::vector<std::string> paths; std::vector<Shape> shapes; };
 std::map<std::string, Ckpt> g_ckpts;
 std::string g_tmp;
@@ -164,7 +165,8 @@ struct Tree {
   Model root;
   std::map<std::string, std::unique_ptr<Model>> nodes;
   void add(const std::string &path, Parameter &p) {
-    std::vector<std::string> parts = vh::split(path, '.');
+    // hierarchy separator: '/' when the path has one (then the names may contain dots), else '.'
+    std::vector<std::string> parts = vh::split(path, path.find('/') != std::string::npos ? '/' : '.');
     if (parts.empty()) throw BadOp();
     Model *cur = &root;
     std::string prefix;
@@ -193,7 +195,7 @@ std::string exec(const std::vector<std::string> &w) {
   const std::string &op = w[0];
   const std::size_t n = w.size();
   if (op == "mode" && n == 2 && (w[1] == "float" || w[1] == "exact")) {
-    g_opts.clear(); g_params.clear(); g_ckpts.clear();
+    g_opts.clear(); g_models.clear(); g_params.clear(); g_ckpts.clear();
     return "ok";
   }
   if (op == "engine" && n == 2 && (w[1] == "model" || w[1] == "spec")) return "ok";
@@ -293,6 +295,24 @@ std::string exec(const std::vector<std::string> &w) {
       m.add(name, *g_params.at(idx(w[i], g_params.size())));
     }
     o.add(m);
+    return "ok";
+  }
+  // persistent models: a model that keeps growing after it was registered with an optimizer
+  if (op == "model" && n == 2) {
+    if (vh::to_u64(w[1]) != g_models.size()) throw BadOp();
+    g_models.emplace_back(new Model());
+    return "ok";
+  }
+  if (op == "madd" && n == 4) {
+    g_models.at(idx(w[1], g_models.size()))->add(w[2], *g_params.at(idx(w[3], g_params.size())));
+    return "ok";
+  }
+  if (op == "msub" && n == 4) {
+    g_models.at(idx(w[1], g_models.size()))->add(w[2], *g_models.at(idx(w[3], g_models.size())));
+    return "ok";
+  }
+  if (op == "oaddm" && n == 3) {
+    g_opts.at(idx(w[1], g_opts.size()))->add(*g_models.at(idx(w[2], g_models.size())));
     return "ok";
   }
   if (op == "update" && n == 2) { g_opts.at(idx(w[1], g_opts.size()))->update(); return "ok"; }
@@ -423,7 +443,7 @@ std::string exec(const std::vector<std::string> &w) {
       for (std::uint32_t d : dims) { if (d == 0) throw BadOp(); prod *= d; }
       if (prod != nums(w[13 + 2 * i]).size()) throw BadOp();
     }
-    g_opts.clear(); g_params.clear(); g_ckpts.clear();
+    g_opts.clear(); g_models.clear(); g_params.clear(); g_ckpts.clear();
     auto run = [&](const std::string &line) {
       const std::string r = exec(vh::words(line));
       if (r.compare(0, 2, "ok") != 0) throw Error(__FILE__, __LINE__, "resume: `" + line + "` -> " + r);
